@@ -279,6 +279,8 @@ def r3_check_mode(ctx):
     ctx.floor('C10.R3', 'calls of the raw writer in pavexc (positive control)', n, 1)
     w = ctx.need('C10.R3', 'AppWriter::persist_if_changed', ctx.fb.body('pavexc', AW + 'persist_if_changed'))
     if w is not None:
+        from ..inline import inlined
+        w = inlined(ctx.fb, w)          # an arm may have been given a name (`Self::record_if_outdated(outdated, path, content)`)
         MODE = 'pavexc::persistence::WriterMode'
         raw = [bb for bb, t in w.calls() if callee(t) == PIC + 'persist_if_changed']
         pred = [bb for bb, t in w.calls() if callee(t) == PIC + 'has_changed_file2buffer']
